@@ -103,10 +103,20 @@ def real_value(kind, attr, v, form):
   return form_value(v, form)
 
 
-def build_real(kind, cur, forms=None):
-  """a FRESH quantizer from the attributes in `cur` (also used for the twins)"""
-  from qkeras import quantizers as Q
+def build_real(kind, cur, forms=None, stoch=False):
+  """a FRESH quantizer from the attributes in `cur` (also used for the twins).  `stoch`: the object under
+  test is built with use_stochastic_rounding=True (strengthening round 3); the twins never are — in the
+  inference phase, where every history runs, the flagged object must equal its deterministic twin"""
+  from qkeras import quantizers as Q0
   f = forms or {}
+  Q = Q0
+  if stoch:
+    class Q:   # pylint: disable=function-redefined
+      quantized_linear = staticmethod(lambda *a, **k: Q0.quantized_linear(*a, use_stochastic_rounding=True, **k))
+      quantized_bits = staticmethod(lambda *a, **k: Q0.quantized_bits(*a, use_stochastic_rounding=True, **k))
+      quantized_relu = staticmethod(lambda *a, **k: Q0.quantized_relu(*a, use_stochastic_rounding=True, **k))
+      quantized_tanh = staticmethod(lambda *a, **k: Q0.quantized_tanh(*a, use_stochastic_rounding=True, **k))
+      quantized_sigmoid = staticmethod(lambda *a, **k: Q0.quantized_sigmoid(*a, use_stochastic_rounding=True, **k))
 
   def fv(name, default):
     return form_value(cur[name], f.get(name, default))
@@ -584,7 +594,11 @@ def run_history(run, rng, hid, kind, c0, forms, steps, tag, jobs, recs):
   cur.setdefault("mode", "hard")
   label0 = "hist#%d[%s] %s(%s)" % (hid, tag, kind, ",".join("%s=%s" % kv for kv in c0.items() if kv[0] != "mode"))
   try:
-    q = build_real(kind, cur, forms)
+    q = build_real(kind, cur, forms, stoch=bool(c0.get("stoch")))
+    if c0.get("stoch"):
+      run.count("hist_stochastic_flag_objects")
+      if not q.use_stochastic_rounding:
+        raise AssertionError("flag lost")
   except Exception as e:  # pylint: disable=broad-except
     run.count("hist_ctor_error")
     run.count("hist_ctor_error:" + kind + ":" + type(e).__name__)
@@ -859,6 +873,11 @@ def run_history(run, rng, hid, kind, c0, forms, steps, tag, jobs, recs):
 def collect(run, tier, jobs, recs):
   rng = np.random.default_rng([run.seed, 20261001])
   hs = histories(tier, rng)
+  flagged = fq.have_phase()
   for hid, (kind, c0, forms, steps, tag) in enumerate(hs):
+    if flagged and hid % 3 == 1:
+      # every third history runs on an object built with use_stochastic_rounding=True (the whole harness runs
+      # in the inference phase): same twin, same machine, same clauses (Props.C02.C02_*_inference)
+      c0 = dict(c0, stoch=1)
     run_history(run, rng, hid, kind, c0, forms, steps, tag, jobs, recs)
   run.extra["histories"] = len(hs)
